@@ -7,6 +7,13 @@ from common import *
 import rint
 from symex import *
 
+class SelfRecursion(Exception):
+    """a function reaches itself again and again on one path: it never returns"""
+    def __init__(self, fn):
+        Exception.__init__(self, fn.get("qn", "?"))
+        self.fn = fn
+
+
 MAX_DEPTH = 60
 MAX_PATHS = 4000
 
@@ -122,9 +129,17 @@ class Engine:
 
     def run_body(self, ex, fn, new):
         if ex.depth > MAX_DEPTH:
+            # the library has no recursion over one instantiation: the same function on the inline stack many times
+            # is a function that reaches itself unconditionally
+            nm = rint.fn_name(fn)
+            if ex.fstack.count(nm) >= MAX_DEPTH // 2 and fn.get("key") and getattr(ex, "kstack", []).count(fn["key"]) >= MAX_DEPTH // 2:
+                raise SelfRecursion(fn)
             raise Unsupported("inlining depth exceeded at %s" % fn.get("qn"))
         ex.depth += 1
         ex.fstack.append(rint.fn_name(fn))
+        if not hasattr(ex, "kstack"):
+            ex.kstack = []
+        ex.kstack.append(fn.get("key"))
         try:
             ex.exec(fn["body"], new)
             return None
@@ -133,6 +148,7 @@ class Engine:
         finally:
             ex.depth -= 1
             ex.fstack.pop()
+            ex.kstack.pop()
 
     def this_of(self, ex, n, fr):
         objn = n.get("obj")
